@@ -10,6 +10,7 @@ import (
 	"github.com/btcsuite/btcd/txscript"
 	"github.com/btcsuite/btcd/wire"
 	"github.com/btcsuite/btcwallet/waddrmgr"
+	"github.com/btcsuite/btcwallet/wallet"
 	"github.com/btcsuite/btcwallet/walletdb"
 	"github.com/btcsuite/btcwallet/wtxmgr"
 
@@ -271,6 +272,54 @@ func (f *Fixture) CheckBalances(where string, b *Book, minconfs []int32) {
 	})
 	if err != nil {
 		f.Violation("[%s] %v", where, err)
+	}
+	// the wallet's transaction history (C13 at wallet level): every relevant
+	// transaction exactly once, under the block that currently confirms it or
+	// as unconfirmed
+	res, err := f.W.GetTransactions(wallet.NewBlockIdentifierFromHeight(0), wallet.NewBlockIdentifierFromHeight(-1), "", nil)
+	if err != nil {
+		f.Violation("[%s] GetTransactions failed: %v", where, err)
+	}
+	seen := map[chainhash.Hash]bool{}
+	last := int32(-1)
+	for _, blk := range res.MinedTransactions {
+		if blk.Height <= last {
+			f.Violation("[%s] GetTransactions lists block %d after block %d", where, blk.Height, last)
+		}
+		last = blk.Height
+		for _, ts := range blk.Transactions {
+			if seen[*ts.Hash] {
+				f.Violation("[%s] GetTransactions lists %v twice", where, ts.Hash)
+			}
+			seen[*ts.Hash] = true
+			b, ok := conf[*ts.Hash]
+			if !ok {
+				f.Violation("[%s] GetTransactions lists %v in block %d, the ledger does not have it confirmed", where, ts.Hash, blk.Height)
+			}
+			if b.Height != blk.Height || b.Hash != *blk.Hash {
+				f.Violation("[%s] GetTransactions lists %v in block %d/%v, it is confirmed in %d/%v", where, ts.Hash, blk.Height, blk.Hash, b.Height, b.Hash)
+			}
+		}
+	}
+	for h := range conf {
+		if !seen[h] {
+			f.Violation("[%s] GetTransactions does not list the confirmed relevant transaction %v", where, h)
+		}
+	}
+	useen := map[chainhash.Hash]bool{}
+	for _, ts := range res.UnminedTransactions {
+		if useen[*ts.Hash] || seen[*ts.Hash] {
+			f.Violation("[%s] GetTransactions lists %v twice", where, ts.Hash)
+		}
+		useen[*ts.Hash] = true
+		if !unconf[*ts.Hash] {
+			f.Violation("[%s] GetTransactions lists %v as unconfirmed, the ledger does not", where, ts.Hash)
+		}
+	}
+	for h := range unconf {
+		if !useen[h] {
+			f.Violation("[%s] GetTransactions does not list the unconfirmed relevant transaction %v", where, h)
+		}
 	}
 }
 
